@@ -311,6 +311,14 @@ func c13body(cfg c13cfg) func() {
 			return
 		}
 		if cfg.stop {
+			permanent := false
+			for _, a := range cfg.attempt {
+				permanent = permanent || a == "permanent"
+			}
+			if runReturned && !permanent {
+				// Run is documented to wait until the manager is stopped (or gives up on an unrecoverable error)
+				vrt.Fail("C13|run-returned-before-stop", "%s: Run returned although the manager was neither stopped nor faced with a permanent error", desc)
+			}
 			before := dials
 			mgr.Stop()
 			vrt.Sleep(time.Minute)
